@@ -210,7 +210,7 @@ class Lit:
         if isinstance(n, ast.Call):
             if isinstance(n.func, ast.Name) and n.func.id in self.PURE and not n.keywords:
                 return self.PURE[n.func.id](*[self.ev(a) for a in n.args])
-            if isinstance(n.func, ast.Attribute) and n.func.attr in ('format', 'join', 'upper', 'lower', 'count', 'items', 'keys', 'values', 'get') :
+            if isinstance(n.func, ast.Attribute) and n.func.attr in ('format', 'join', 'upper', 'lower', 'count', 'items', 'keys', 'values', 'get', 'split', 'strip', 'replace', 'startswith', 'endswith'):
                 base = self.ev(n.func.value)
                 if isinstance(base, (str, dict, tuple, list)):
                     args = [self.ev(a) for a in n.args]
